@@ -12,7 +12,8 @@ PERSEC = 4
 TYPES = ["cache", "rel", "abs", "mem"]
 # the key space of generated behaviours: k2, k3, k4 each differ from k1 in exactly one component of the key; k4 carries the
 # same value as k1 in the *other* selected path parameter (the first one missing)
-KEYS = {"k1": ("GET", "a.com/x", {"id": "1"}), "k2": ("POST", "a.com/x", {"id": "1"}), "k3": ("GET", "a.com/y", {"id": "1"}),
+# k3 differs from k1 only in the letter case of a path segment (URLs are keys as they are spelled)
+KEYS = {"k1": ("GET", "a.com/x", {"id": "1"}), "k2": ("POST", "a.com/x", {"id": "1"}), "k3": ("GET", "a.com/X", {"id": "1"}),
         "k4": ("GET", "a.com/x", {"org": "1"})}
 GEN = {"cache": {"typ": "cache", "ttl": 3, "max": 4, "sel": ["id", "org"], "relevant": []},
        "rel": {"typ": "rel", "ttl": 0, "max": -1, "sel": [], "relevant": [429]},
@@ -79,8 +80,11 @@ def hist_to_script(hist, typ, rng):
                     group = {"ev": "sched", "ops": [], "steps": []}
                 names = [hist[j]["ev"] for j in s]
                 k = len(group["ops"])
-                group["ops"].append(dict(resp_of(e, typ, rng), op="resp", gate=("winsert" in names)))
-                start = next((j for j in s if hist[j]["ev"] == "wcheck"), s[-1] if s else i)
+                # a writer of the model that measures the replaced entry in a step of its own (wpeek) is held there
+                # (yield point in the size function), any other one between the size test and the insertion
+                peek = "wpeek" in names
+                group["ops"].append(dict(resp_of(e, typ, rng), op="resp", gate=("winsert" in names and not peek), sgate=peek))
+                start = next((j for j in s if hist[j]["ev"] == ("wpeek" if peek else "wcheck")), s[-1] if s else i)
                 for j in range(i + 1, start):
                     if hist[j]["ev"] in ("winsert", "fire", "fire1") and hist[j].get("w") != e["w"]:
                         raise Unforceable("a write between the has test and the size test of one writer cannot be forced with one yield point")
@@ -150,13 +154,24 @@ def key_pool(rng, cfg):
                 k["pp"][a] = b
         pool.append(k)
     var(m="POST"); var(u="api.com/v1/item"); var(id="8"); var(org="acm"); var(z="1")
+    # URLs that differ only in the letter case of the path or of the query text, or by a trailing dot / slash, are
+    # different keys (the host is left alone: host names are not case sensitive and the statement is open there)
+    var(u="api.com/v1/Items"); var(u="api.com/V1/items"); var(u="api.com/v1/items?Q=a"); var(u="api.com/v1/items?q=a")
+    var(u="api.com/v1/items."); var(u="api.com/v1/items/")
+    var(id="AbC"); var(id="abc")     # ... and so are selected parameter values
+    var(u="api.com/v1/items/AbC", id="AbC"); var(u="api.com/v1/items/abc", id="abc")    # the differing segment is the parameter
     var(id="")                       # a parameter without a value
     var(id="7.org:acme", org="")     # a value that spells out the next selected parameter
     var(id="acme", org="7")          # the same values, permuted
     var(id="7", org="")              # one of two selected parameters missing ...
     var(id="", org="7")              # ... and the same value sitting in the other one
-    if cfg["typ"] in ("rel", "abs"):
-        pool = pool[:3] + [pool[5]]       # only method and URL are in the throttling remedy's key
+    if cfg["typ"] in ("rel", "abs"):      # only method and URL are in the throttling remedy's key
+        seen, uniq = set(), []
+        for k in pool:
+            if (k["m"], k["u"]) not in seen:
+                seen.add((k["m"], k["u"]))
+                uniq.append(k)
+        pool = uniq
     return pool
 
 
@@ -176,9 +191,12 @@ def rand_history(rng, cfg, n, conc):
             k["pp"]["z"] = rng.choice(["0", "1", "2"])
         return k
 
+    stored = []
+
     def resp():
         vid[0] += 1
         o = key()
+        stored.append({k: o[k] for k in ("m", "u", "pp")})
         o.update({"v": "v%d" % vid[0], "st": 200, "hh": 0, "hdr": -1, "sz": rng.choice([1, 1, 2, 3])})
         if typ == "mem":
             o.update({"hh": 1, "hdr": rng.choice([0, 1, 2, 3, 5])})
@@ -194,19 +212,21 @@ def rand_history(rng, cfg, n, conc):
                 exps.append(now + o["hdr"] if typ == "rel" else o["hdr"])
         return o
 
-    def size_race():
+    def size_race(peek=False):
         """writers held at the yield point between the size test and the insertion, around the size limit: same and different
         keys, overwrites with larger and smaller values, refused writes; then further writes; then every key is probed"""
         keys = rng.sample(pool, 2) + [rng.choice(pool)]
         ops = []
-        for _ in range(rng.randint(2, 3)):
+        for _ in range(1 if peek else rng.randint(2, 3)):
             o = resp()
-            o.update(json.loads(json.dumps(rng.choice(keys))))
-            o.update({"op": "resp", "gate": True, "sz": rng.choice([1, 2, 2, 3])})
+            o.update(json.loads(json.dumps(rng.choice(stored[-3:] if peek and stored else keys))))
+            o.update({"op": "resp", "gate": not peek, "sgate": peek, "sz": rng.choice([1, 2, 2, 3])})
             ops.append(o)
         order = list(range(len(ops)))
         rng.shuffle(order)
         steps = [{"a": "start", "i": i} for i in order]
+        if peek:        # overwrite against expiry of the same key: the writer is held while it measures the entry it
+            steps.append({"a": "fire"})     # replaces (yield point in the size function), the clean-up goroutines are woken
         rng.shuffle(order)
         steps += [{"a": "release", "i": i} for i in order]
         out = [{"ev": "sched", "ops": ops, "steps": steps}]
@@ -221,7 +241,15 @@ def rand_history(rng, cfg, n, conc):
     for _ in range(n):
         x = rng.random()
         if x < 0.08 and typ in ("cache", "mem"):
-            h.extend(size_race())
+            fut = [t - now for t in exps if t >= now]
+            if typ == "mem" and fut and rng.random() < 0.5:
+                d = max(1, min(fut))
+                now += d
+                h.append({"ev": "adv", "d": d, "lag": 1})       # an entry expires, its clean-up lags
+                lagging = False                                 # (the race delivers the timers)
+                h.extend(size_race(peek=True))
+            else:
+                h.extend(size_race())
         elif x < 0.22:
             fut = [t - now for t in exps if t >= now]
             d = rng.choice([1, 1, 2, 3] + ([min(fut), min(fut) + 1, max(fut) + 1] if fut else []))
@@ -374,7 +402,7 @@ def judge(ctx, binary, scripts, traces, tag, seen, flags):
                 return None
         return rej[0]
     sel = list(enumerate(traces))
-    if ctx.thorough and tag == "rand":
+    if tag == "rand":                    # every other random recording
         sel = sel[::2]
     drifts = parallel(drift, sel, n=5)
     inconclusive = sum(1 for d in drifts if d == "inconclusive")
@@ -452,7 +480,8 @@ def run(ctx):
             ("MC_abs" + sfx, "throttling remedy, absolute retry-after"), ("MC_mem" + sfx, "MemoryCache driven directly")]
     bad = [("MC_cache_kf", "cache", "size test outside the lock"), ("MC_cache_noexp", "cache", "no expiry test in Get"),
            ("MC_abs_trunc", "abs", "clock truncated to whole seconds"), ("MC_cache_leak", "cache", "overwritten entry's size not given back"),
-           ("MC_mem_refleak", "mem", "refused overwrite does not restore the accounting")]
+           ("MC_mem_refleak", "mem", "refused overwrite does not restore the accounting"),
+           ("MC_mem_peek", "mem", "replaced entry measured before the lock is taken")]
     def mc(it):
         name, what = it[0], it[-1]
         if it in good:
@@ -485,6 +514,9 @@ def run(ctx):
         if evs is None:
             raise Broken("counterexample of %s cannot be forced on the real code: %s" % (name, why))
         tail = [{"ev": "adv", "d": 20}, {"ev": "req", **{k: v for k, v in op_of("k1", typ, ctx.rng, {}).items()}}] if name == "MC_cache_leak" else []
+        if name == "MC_mem_peek":       # the counterexample ends with an under-counting cache: fill it up by its own accounting
+            evs = evs + [dict(op_of(k, typ, ctx.rng, {"v": "f%d" % n, "st": 200, "hh": 1, "hdr": 9, "sz": 1}), ev="resp")
+                         for n, k in enumerate(["k2", "k3", "k4", "k2"])]
         scripts.append({"config": MCCONF[typ], "histories": [[{"ev": "reset", "now": 0}] + evs + probes(typ, ctx.rng) + tail]})
         names.append(name)
     traces = execute(ctx, binary, scripts, "cx")
